@@ -374,6 +374,28 @@ def c01_b(ctx):
         is_nan = v is not None and (contains(v, 'np.nan') or contains(v, "float('nan')") or
                                     contains(v, 'math.nan'))
         is_inf = v is not None and contains(v, 'np.inf') and not contains(v, '-np.inf')
+        # the placeholder must survive as nan: np.full / fill with the batch's dtype casts it (an
+        # integer discrepancy turns nan into INT_MIN, which sorts first)
+        cast = False
+        if v is not None:
+            for sub in subterms(v):
+                if sub[0] == 'call' and sub[1] in (('global', 'numpy.full'),
+                                                   ('global', 'numpy.full_like')):
+                    kw_ = dict(sub[3])
+                    dt_ = kw_.get('dtype', sub[2][2] if len(sub[2]) > 2 else None)
+                    if sub[1][1].endswith('full_like') and dt_ is None:
+                        cast = True
+                    if dt_ is not None and dt_ not in (('name', 'float'),
+                                                       ('global', 'builtins.float'),
+                                                       ('global', 'numpy.float64'),
+                                                       ('const', 'float64'), ('const', 'float')):
+                        cast = True
+        ctx.check(not cast, f, 'placeholder value is not cast to the discrepancy\'s dtype',
+                  'np.ones(shape, dtype) * np.nan (promotes to float)',
+                  'the placeholder is written into an array of the batch\'s dtype ({}): for an '
+                  'integer discrepancy nan / inf become INT_MIN and the unfilled rows sort first'
+                  .format(src(init.value)[:50] if init is not None else None), fn=f,
+                  node=init if init is not None else s)
         ctx.check(is_nan and not is_inf, f, 'unfilled rows sort after every simulated draw',
                   'discrepancy buffer starts at nan',
                   'the discrepancy buffer is initialised to {}: '.format(
